@@ -93,9 +93,8 @@ Limb(m, i) == IF i <= Len(m) THEN m[i] ELSE 0
 Indices(w) == [i \in 1..w |-> i]
 MagLt(x, y) ==
     \/ Len(x) < Len(y)
-    \/ /\ Len(x) = Len(y)
-       /\ LET top == SelectLastInSeq([i \in 1..Len(x) |-> x[i] - y[i]], NonZero)   \* highest differing limb
-          IN top # 0 /\ x[top] < y[top]
+    \/ /\ Len(x) = Len(y)                       \* smaller at the highest differing limb
+       /\ \E i \in 1..Len(x) : x[i] < y[i] /\ \A j \in (i + 1)..Len(x) : x[j] = y[j]
 MagInc(m) == LET z == SelectInSeq(m, NotMax) IN            \* lowest limb that absorbs the carry
              IF z = 0 THEN [i \in 1..(Len(m) + 1) |-> IF i <= Len(m) THEN 0 ELSE 1]
              ELSE [i \in 1..Len(m) |-> IF i < z THEN 0 ELSE IF i = z THEN m[i] + 1 ELSE m[i]]
